@@ -1159,7 +1159,7 @@ def cases(tier, seed):
     k = 0
     # (A) the same problem at another absolute scale (y, Y0 and lamb rescaled consistently): every clause
     for n in cov:
-        for c in (1e-8, 1e-4, 1e4, 1e8) + ((1e-12, 1e12) if big else ()):
+        for c in (1e-12, 1e-8, 1e4, 1e8) + ((1e-4, 1e12) if big else ()):
             for rep in range(reps):
                 k += 1
                 base = dict(n=n, r=1 + k % 3, m=int(g2.integers(0, 40)), lamb=LAMBS[k % 6], weighted=bool(k % 2),
